@@ -213,3 +213,170 @@ func (ls *LState) VerifStringConcat(values ...LValue) LValue {
 	ls.reg.SetTop(top)
 	return ret
 }
+
+// ---- open-upvalue list and the upvalue/environment opcodes (C03) ----
+
+// VerifUpvalMachine drives the open-upvalue list of an LState (findUpvalue, closeUpvalues, Upvalue
+// methods) and the real handlers of the upvalue/environment opcodes (the jumpTable entries of vm.go,
+// including their inlined copies of closeUpvalues) one operation at a time.  Upvalue objects and
+// closures are named by small handles (order of first appearance).
+type VerifUpvalMachine struct {
+	ls  *LState
+	uvs []*Upvalue
+	fns []*LFunction
+}
+
+// VerifNewUpvalMachine initialises registers [0,nregs) of ls to LNil and returns the machine.
+func VerifNewUpvalMachine(ls *LState, nregs int) *VerifUpvalMachine {
+	ls.reg.SetTop(nregs)
+	return &VerifUpvalMachine{ls: ls}
+}
+
+func (m *VerifUpvalMachine) uvHandle(uv *Upvalue) int {
+	if uv == nil {
+		return -1
+	}
+	for i, u := range m.uvs {
+		if u == uv {
+			return i
+		}
+	}
+	m.uvs = append(m.uvs, uv)
+	return len(m.uvs) - 1
+}
+
+// NewRootFunction makes a Lua closure without upvalues whose environment is env.
+func (m *VerifUpvalMachine) NewRootFunction(env *LTable) int {
+	m.fns = append(m.fns, newLFunctionL(newFunctionProto("verif"), env, 0))
+	return len(m.fns) - 1
+}
+
+func (m *VerifUpvalMachine) Find(idx int) (h int, perr string) {
+	perr = verifGuard(func() { h = m.uvHandle(m.ls.findUpvalue(idx)) })
+	return
+}
+func (m *VerifUpvalMachine) CloseFrom(idx int) string {
+	return verifGuard(func() { m.ls.closeUpvalues(idx) })
+}
+func (m *VerifUpvalMachine) UvValue(h int) (v LValue, perr string) {
+	perr = verifGuard(func() { v = m.uvs[h].Value() })
+	return
+}
+func (m *VerifUpvalMachine) UvSetValue(h int, v LValue) string {
+	return verifGuard(func() { m.uvs[h].SetValue(v) })
+}
+func (m *VerifUpvalMachine) UvIsClosed(h int) bool { return m.uvs[h].IsClosed() }
+func (m *VerifUpvalMachine) UvIndex(h int) int     { return m.uvs[h].index }
+func (m *VerifUpvalMachine) RegSet(i int, v LValue) string {
+	return verifGuard(func() { m.ls.reg.Set(i, v) })
+}
+func (m *VerifUpvalMachine) RegGet(i int) (v LValue, perr string) {
+	perr = verifGuard(func() { v = m.ls.reg.array[i] })
+	return
+}
+
+// Open returns the handles of the open list in list order.
+func (m *VerifUpvalMachine) Open() []int {
+	var hs []int
+	for uv := m.ls.uvcache; uv != nil; uv = uv.next {
+		hs = append(hs, m.uvHandle(uv))
+		if len(hs) > 1<<16 {
+			break // cyclic chain
+		}
+	}
+	return hs
+}
+
+func (m *VerifUpvalMachine) FnEnv(fn int) *LTable { return m.fns[fn].Env }
+func (m *VerifUpvalMachine) SetFnEnv(fn int, env *LTable) string {
+	return verifGuard(func() { m.ls.SetFEnv(m.fns[fn], env) })
+}
+func (m *VerifUpvalMachine) FnUpvalues(fn int) []int {
+	var hs []int
+	for _, uv := range m.fns[fn].Upvalues {
+		hs = append(hs, m.uvHandle(uv))
+	}
+	return hs
+}
+
+// exec runs one real opcode handler with a scratch frame {Fn: fns[cur], LocalBase: lbase}.
+func (m *VerifUpvalMachine) exec(cur, lbase int, proto *FunctionProto, inst uint32) string {
+	return verifGuard(func() {
+		fn := m.fns[cur]
+		oldp, oldcf := fn.Proto, m.ls.currentFrame
+		fn.Proto = proto
+		cf := &callFrame{Fn: fn, Pc: 0, Base: lbase - 1, LocalBase: lbase, ReturnBase: lbase - 1}
+		m.ls.currentFrame = cf
+		defer func() { fn.Proto, m.ls.currentFrame = oldp, oldcf }()
+		jumpTable[int(inst>>26)](m.ls, inst, nil)
+	})
+}
+
+// OpClosure executes OP_CLOSURE A 0 in function cur followed by its capture pseudo-instructions:
+// caps[i] >= 0 is `MOVE 0 caps[i]` (capture local register lbase+caps[i]), caps[i] < 0 is
+// `GETUPVAL 0 (-1-caps[i])` (share upvalue of cur).  Returns the handle of the new closure.
+func (m *VerifUpvalMachine) OpClosure(cur, lbase, a int, caps []int) (fn int, perr string) {
+	child := newFunctionProto("verif-child")
+	child.NumUpvalues = uint8(len(caps))
+	proto := newFunctionProto("verif")
+	proto.FunctionPrototypes = append(proto.FunctionPrototypes, child)
+	for _, c := range caps {
+		if c >= 0 {
+			proto.Code = append(proto.Code, opCreateABC(OP_MOVE, 0, c, 0))
+		} else {
+			proto.Code = append(proto.Code, opCreateABC(OP_GETUPVAL, 0, -1-c, 0))
+		}
+	}
+	perr = m.exec(cur, lbase, proto, opCreateABx(OP_CLOSURE, a, 0))
+	if perr != "" {
+		return -1, perr
+	}
+	cl, ok := m.ls.reg.array[lbase+a].(*LFunction)
+	if !ok {
+		return -1, "no closure in RA"
+	}
+	m.fns = append(m.fns, cl)
+	return len(m.fns) - 1, ""
+}
+func (m *VerifUpvalMachine) OpGetUpval(cur, lbase, a, b int) string {
+	return m.exec(cur, lbase, newFunctionProto("verif"), opCreateABC(OP_GETUPVAL, a, b, 0))
+}
+func (m *VerifUpvalMachine) OpSetUpval(cur, lbase, a, b int) string {
+	return m.exec(cur, lbase, newFunctionProto("verif"), opCreateABC(OP_SETUPVAL, a, b, 0))
+}
+func (m *VerifUpvalMachine) OpClose(cur, lbase, a int) string {
+	return m.exec(cur, lbase, newFunctionProto("verif"), opCreateABC(OP_CLOSE, a, 0, 0))
+}
+func (m *VerifUpvalMachine) OpGetGlobal(cur, lbase, a int, name string) string {
+	p := newFunctionProto("verif")
+	p.Constants = append(p.Constants, LString(name))
+	p.stringConstants = append(p.stringConstants, name)
+	return m.exec(cur, lbase, p, opCreateABx(OP_GETGLOBAL, a, 0))
+}
+func (m *VerifUpvalMachine) OpSetGlobal(cur, lbase, a int, name string) string {
+	p := newFunctionProto("verif")
+	p.Constants = append(p.Constants, LString(name))
+	p.stringConstants = append(p.stringConstants, name)
+	return m.exec(cur, lbase, p, opCreateABx(OP_SETGLOBAL, a, 0))
+}
+
+// VerifFrame describes one live call frame (innermost first in VerifFrames).
+type VerifFrame struct {
+	IsG       bool
+	Base      int
+	LocalBase int
+	NumRegs   int // Proto.NumUsedRegisters of a Lua function, 0 for a host function
+}
+
+// VerifFrames lists the live call frames of this thread following currentFrame.Parent.
+func (ls *LState) VerifFrames() []VerifFrame {
+	var fs []VerifFrame
+	for cf := ls.currentFrame; cf != nil && len(fs) < 1<<16; cf = cf.Parent {
+		f := VerifFrame{IsG: cf.Fn.IsG, Base: cf.Base, LocalBase: cf.LocalBase}
+		if !cf.Fn.IsG {
+			f.NumRegs = int(cf.Fn.Proto.NumUsedRegisters)
+		}
+		fs = append(fs, f)
+	}
+	return fs
+}
